@@ -7,6 +7,9 @@ import time
 
 VERIF = os.path.dirname(os.path.dirname(os.path.abspath(__file__)))
 KNOWN = os.path.join(VERIF, 'known_findings.txt')
+# when a scratch copy is analysed (self-tests, seeded changes) evidence and reports go to a side directory:
+# evidence/ only ever describes runs against /repo itself
+OUT = VERIF if os.environ.get('SPECTRA_REPO', '/repo') == '/repo' else os.environ.get('VERIF_ALT_OUT', '/tmp/verif-alt-out')
 
 
 class Ctx:
@@ -86,7 +89,7 @@ def finish(ctx, seed=0):
             known_hit.append((o, hit))
         else:
             viol.append(o)
-    rep_dir = os.path.join(VERIF, 'reports', pid)
+    rep_dir = os.path.join(OUT, 'reports', pid)
     os.makedirs(rep_dir, exist_ok=True)
     for f in os.listdir(rep_dir):
         os.remove(os.path.join(rep_dir, f))
@@ -153,8 +156,8 @@ def finish(ctx, seed=0):
         'wall_s': round(time.time() - ctx.t0 + ctx.info.get('extract_s', 0), 2),
         'violations': len(viol),
     }
-    os.makedirs(os.path.join(VERIF, 'evidence'), exist_ok=True)
-    with open(os.path.join(VERIF, 'evidence', pid + '.json'), 'w') as fh:
+    os.makedirs(os.path.join(OUT, 'evidence'), exist_ok=True)
+    with open(os.path.join(OUT, 'evidence', pid + '.json'), 'w') as fh:
         json.dump(ev, fh, indent=1)
     print('%s: %d/%d obligations discharged over %d rules (%s tier), %d violation(s), %d known finding(s)' %
           (pid, good, total, len(rules), ctx.tier, len(viol), len(known_hit)))
